@@ -654,9 +654,16 @@ def run_drive_parse(name, n, seed_offset=0):
     out = os.path.join(wdir, "events.ndjson")
     r = sh([os.path.join(BIN, "drive"), "parse", str(seed() + seed_offset), str(n), out],
            stdout=subprocess.PIPE, stderr=subprocess.PIPE, timeout=3600)
+    crash = None
+    cnt = r.stdout.decode().strip()
+    if r.returncode == 2:
+        raise ToolError("drive parse usage error: " + r.stderr.decode(errors="replace")[-2000:])
     if r.returncode != 0:
-        raise ToolError("drive parse failed: " + r.stderr.decode(errors="replace")[-2000:])
-    log("drive  %-26s %9s parse events recorded" % (name, r.stdout.decode().strip()))
+        # the process died in a call (an abort is not an unwinding panic): run again with the progress
+        # marker on (slower) to learn which call it was; the events before it are kept
+        cnt, crash = _drive(["parse", str(seed() + seed_offset), str(n), out], wdir)
+    LAST_DRIVE_CRASH[out] = crash
+    log("drive  %-26s %9s parse events recorded%s" % (name, cnt, "  PROCESS DIED in a call" if crash else ""))
     return out
 
 
